@@ -459,7 +459,7 @@ impl Suite for ServiceSuite {
         if self.big {
             tier.pick(0, 48)
         } else {
-            tier.pick(1600, 24_000)
+            tier.pick(8000, 80_000)
         }
     }
     fn classify(&self, c: &SvcCase) -> Vec<&'static str> {
@@ -497,6 +497,11 @@ impl Suite for ServiceSuite {
         });
         let what = format!("{} {} {} on {:?} (content-length {:?})", if c.h2 { "h2" } else { "h1" }, c.method, c.path, c.kind, c.content_length);
         if o.error.as_deref().is_some_and(|e| e.starts_with("cannot build request")) {
+            return Ok(());
+        }
+        // a Content-Length that is not a number makes the request malformed at the HTTP/2 layer
+        // (RFC 9113 8.1.1): the h2 library resets the stream before the handler sees it
+        if c.h2 && c.content_length.as_deref().is_some_and(|l| l.parse::<u64>().is_err()) {
             return Ok(());
         }
         ensure!(egress == 0, "service:egress", "{}: caused {} forwarder call(s)", what, egress);
@@ -641,7 +646,7 @@ impl Suite for RpSuite {
             .boxed()
     }
     fn cases(&self, tier: Tier) -> u64 {
-        tier.pick(800, 12_000)
+        tier.pick(4000, 40_000)
     }
     fn classify(&self, c: &RpCase) -> Vec<&'static str> {
         let mut v = vec![];
